@@ -233,6 +233,8 @@ func exec1(op string) vlib.Res {
 		return execWrite(f)
 	case "msg fingerprint":
 		return execFingerprint()
+	case "cache flags":
+		return execCacheFlags(f)
 	case "cache strip":
 		return execCacheStrip(f[2], f[3])
 	case "cache view":
@@ -649,6 +651,91 @@ func execFingerprint() vlib.Res {
 		or = "FAIL sig=fingerprint/message-mutated/" + mutationClass(under.m, pristine.m)
 	}
 	return vlib.Res{Impl: got.kind, Oracle: or, Tags: "nt,fingerprint"}
+}
+
+// rrOfType builds a record of the given type under the given owner (the types prepareWireServe looks at,
+// and bystanders).
+func rrOfType(t uint16, owner string, i int) dns.RR {
+	h := dns.RR_Header{Name: owner, Rrtype: t, Class: dns.ClassINET, Ttl: 60}
+	switch t {
+	case dns.TypeA:
+		return &dns.A{Hdr: h, A: net.IPv4(192, 0, 2, byte(i)).To4()}
+	case dns.TypeAAAA:
+		return &dns.AAAA{Hdr: h, AAAA: net.ParseIP("2001:db8::1")}
+	case dns.TypeCNAME:
+		return &dns.CNAME{Hdr: h, Target: "target.example."}
+	case dns.TypeSOA:
+		return &dns.SOA{Hdr: h, Ns: "ns.example.", Mbox: "h.example.", Serial: uint32(i), Refresh: 2, Retry: 3, Expire: 4, Minttl: 5}
+	case dns.TypeDS:
+		return &dns.DS{Hdr: h, KeyTag: uint16(i), Algorithm: 13, DigestType: 2, Digest: "00ff"}
+	case dns.TypeRRSIG:
+		return &dns.RRSIG{Hdr: h, TypeCovered: dns.TypeA, Algorithm: 13, Labels: 2, OrigTtl: 60, Expiration: 1800000000, Inception: 1700000000, KeyTag: uint16(i), SignerName: "example.", Signature: "c2ln"}
+	case dns.TypeNSEC:
+		return &dns.NSEC{Hdr: h, NextDomain: "z.example.", TypeBitMap: []uint16{dns.TypeA}}
+	case dns.TypeNSEC3:
+		return &dns.NSEC3{Hdr: h, Hash: 1, HashLength: 20, NextDomain: "2T7B4G4VSA5SMI47K61MV5BV1A22BOJR", TypeBitMap: []uint16{dns.TypeA}}
+	}
+	return &dns.TXT{Hdr: dns.RR_Header{Name: owner, Rrtype: dns.TypeTXT, Class: dns.ClassINET, Ttl: 60}, Txt: []string{"t"}}
+}
+
+func parseTypes(s string) []uint16 {
+	if s == "-" {
+		return nil
+	}
+	var out []uint16
+	for _, x := range strings.Split(s, ",") {
+		out = append(out, uint16(vlib.Atoi(x)))
+	}
+	return out
+}
+
+// `cache flags qd=<n> qt=<type> rc=<rcode> an=<types> ns=<types> ar=<n>`: prepareWireServe's verdict on the
+// library's encoding of such a body.
+func execCacheFlags(f []string) vlib.Res {
+	arg := func(i int, k string) string { return strings.TrimPrefix(f[i], k+"=") }
+	qd, qt, rc := vlib.Atoi(arg(2, "qd")), uint16(vlib.Atoi(arg(3, "qt"))), vlib.Atoi(arg(4, "rc"))
+	m := new(dns.Msg)
+	m.Id, m.Response, m.Rcode, m.Compress = 9, true, rc, true
+	for i := 0; i < qd; i++ {
+		m.Question = append(m.Question, dns.Question{Name: "flags.example.", Qtype: qt, Qclass: dns.ClassINET})
+	}
+	for i, t := range parseTypes(arg(5, "an")) {
+		m.Answer = append(m.Answer, rrOfType(t, "flags.example.", i))
+	}
+	for i, t := range parseTypes(arg(6, "ns")) {
+		m.Ns = append(m.Ns, rrOfType(t, "example.", 50+i))
+	}
+	for i := 0; i < vlib.Atoi(arg(7, "ar")); i++ {
+		m.Extra = append(m.Extra, rrOfType(vlib.Pick(vlib.NewR(uint64(i)), []uint16{dns.TypeA, dns.TypeRRSIG, dns.TypeAAAA}), "ns.example.", 90+i))
+	}
+	o := libPack(m)
+	if o.kind != "ok" {
+		return vlib.Res{Impl: "unpackable", Oracle: "FAIL sig=harness/flags-message-does-not-pack"}
+	}
+	el, sec, chase := cache.VerifC15WireFlags(o.b)
+	// oracle: the documented rule, on the message itself
+	wantSec := false
+	hasQ, hasC := false, false
+	for _, rr := range append(append([]dns.RR{}, m.Answer...), m.Ns...) {
+		switch rr.Header().Rrtype {
+		case dns.TypeRRSIG, dns.TypeNSEC, dns.TypeNSEC3:
+			wantSec = true
+		}
+	}
+	for _, rr := range m.Answer {
+		hasQ = hasQ || rr.Header().Rrtype == qt
+		hasC = hasC || rr.Header().Rrtype == dns.TypeCNAME
+	}
+	wantChase := rc == dns.RcodeNameError || qt == dns.TypeCNAME || qt == dns.TypeDS || hasQ || !hasC
+	or := "ok"
+	if qd != 1 {
+		if el || sec || chase {
+			or = "FAIL sig=flags/body-without-exactly-one-question-flagged"
+		}
+	} else if !el || sec != wantSec || chase != wantChase {
+		or = fmt.Sprintf("FAIL sig=flags/verdict-differs-from-the-rule eligible=%v dnssec=%v/%v chase=%v/%v", el, sec, wantSec, chase, wantChase)
+	}
+	return vlib.Res{Impl: fmt.Sprintf("e=%s s=%s c=%s", vlib.B(el), vlib.B(sec), vlib.B(chase)), Oracle: or, Tags: "nt,flags"}
 }
 
 // `cache strip <answer kinds> <authority kinds>`: the DO=0 body admission prepares; kinds: t = a TXT record of
@@ -1170,6 +1257,28 @@ func gen(r *vlib.R, n int, tier string, emit func(string)) {
 		}
 	}
 	recv(nil)
+	// prepareWireServe's verdict: question counts, the question types it singles out, both rcodes it tells apart,
+	// answer/authority type lists over {A, CNAME, SOA, TXT, DS, RRSIG, NSEC, NSEC3}
+	ft := []string{"1", "5", "6", "16", "43", "46", "47", "50"}
+	nFlags := 250
+	if tier == "thorough" {
+		nFlags = 6000
+	}
+	for i := 0; i < nFlags; i++ {
+		list := func(max int) string {
+			n := r.Intn(max + 1)
+			if n == 0 {
+				return "-"
+			}
+			var xs []string
+			for k := 0; k < n; k++ {
+				xs = append(xs, vlib.Pick(r, ft))
+			}
+			return strings.Join(xs, ",")
+		}
+		e(fmt.Sprintf("cache flags qd=%d qt=%s rc=%d an=%s ns=%s ar=%d", vlib.Pick(r, []int{1, 1, 1, 1, 1, 0, 2}), vlib.Pick(r, ft),
+			vlib.Pick(r, []int{0, 0, 3, 2}), list(3), list(2), r.Intn(3)))
+	}
 	// the DO=0 body: every answer/authority shape of up to 3+2 records over {TXT, SOA, RRSIG, NSEC, NSEC3}
 	sk := []string{"t", "r", "c", "3", "s"}
 	for _, a := range []string{"-", "t", "r", "tr", "tt", "trt", "rtr", "tc", "t3r", "ttr"} {
